@@ -306,3 +306,21 @@ def run(ctx):
     for (nid, meth), sites in sorted(pending.items()):
         r4.fail('%s/%s' % (nid, meth), sites[0], '`%s` over an unbudgeted inner generator can discard arbitrarily many items inside one step without consuming search or call budget (%d site(s): %s)' % (meth, len(sites), ', '.join(sites)))
     r4.need(3)
+
+    # ---------------- R10.5 one budget per native call
+    r5 = ctx.rule('R10.5', 'the search budget of a native call is obtained once, outside every loop of that native')
+    for b, bb, tm in mir.call_sites(lambda n: n.endswith('runtime::RuntimeLimits::search_iter')):
+        in_loop = tm.get('target') is not None and bb in b.reachable(tm['target'])
+        # a closure called once per item of an outer iteration is a loop body as well
+        per_item = False
+        if b.kind == 'closure':
+            for pb, i, j in mirq.closure_creation_sites(mir, b.id):
+                for cbb, ct in pb.calls():
+                    if any(op_local(a) == pb.blocks[i]['stmts'][j]['place']['l'] for a in ct['args']) and re.search(r'Iterator::(map|for_each|filter|filter_map|flat_map|scan|try_for_each|fold|try_fold|any|all|find|find_map|take_while|skip_while|inspect)$', strip_generics(ct.get('decl') or ct.get('callee') or '')):
+                        per_item = True
+        ok = not in_loop and not per_item
+        r5.inst({'fn': b.nid, 'site': mirq.site(b, bb), 'inside_a_loop': in_loop, 'inside_a_per_item_closure': per_item}, ok=ok, kind=(b.nid, bb))
+        if not ok:
+            fn = strip_generics(mir.enclosing_fn(b)) if b.kind == 'closure' else b.nid
+            r5.fail('%s/budget-per-iteration' % fn, mirq.site(b, bb), 'a fresh search budget is taken on every iteration: each round may spend the whole limit, so the work of one call is not bounded by the limit (quadratic regex search, ...)')
+    r5.need(5)
